@@ -48,4 +48,6 @@ CLAIMS = {
     },
 }
 
-NOT_APPLICABLE = []
+_PENDING = "not claimed yet: the technique applies (see DESIGN.md §6); model/correspondence for this property is still being built in this session"
+NOT_APPLICABLE = [{"property_id": p, "reason": _PENDING} for p in
+                  ["C04", "C11", "C12", "C13", "C14", "C15", "C17", "C18", "C19", "C20"] if p not in CLAIMS]
